@@ -8,7 +8,13 @@ closures - every output of calls, direct calls and A,B,C,D,c1,c2 reads along a r
 Enclosure route (R, interval): NLS with polynomial/trigonometric trees - A,B,C,D,c1,c2 of the
 implementation (torch autograd) vs the model's symbolic derivative, |diff| <= 256 eps * magnitude.
 Property oracle (independent of the Coq model): time = last assigned + calls since (plain loop), sympy
-Jacobians at the recorded reference point, exact rationals / 50-digit evaluation."""
+Jacobians at the recorded reference point, exact rationals / 50-digit evaluation.
+Round 5: (a) twins - a live object is duplicated (copy.deepcopy / pickle round trip) in the middle of a
+history and both objects go on, interleaved; each must behave as ONE object that lived through its own
+operations (own clock, own equations at its own time, own last state / reference point), judged by the same
+oracle and the same Coq evaluators as single objects, plus the final times of both; (b) reference points that
+are special by value (fixed points g(x*,u*,t*) == x* / f == x*, echoed input, exact zeros, zero state / input /
+time) of systems that are not special as functions, on both routes."""
 import math
 from ..common import *
 
@@ -20,6 +26,9 @@ RULE = ('time traces: kind in {LTI,LTV,NLS} x random op lists (call, direct forw
         'LTV: period T 1..4, stacked matrices entries in {-1,-1/2,0,1/2,1}, traces of 3..14 ops incl. negative times; '
         'NLS: nx,nu in 1..3, component trees over {const k/4, x_i, u_j, t, +, *, sin, cos} depth<=4 (polynomial trees degree<=4 for the exact route), '
         'histories of 4..14 ops (call, direct, reset, systime, set_refpoint with given/None state,input,t, reads); '
+        'special reference points: components base + sum (factor vanishing at the point) * tree with base in {x_i (fixed point by value), u_i, 0, const}, '
+        'zero state / zero input / t*=0 with probability ~1/3 each, reached explicitly, through the clock or through a call, never as first operation; '
+        'twins: copy.deepcopy / pickle round trip of a live LTI/LTV/NLS object after 0..8 ops, both objects then run 1..8 more ops interleaved, each judged as one object that lived through its own history; '
         'a case = one op of a trace / one batch item / one linearisation read; non-trivial = non-zero data; distinct by value')
 
 
@@ -176,6 +185,75 @@ def read_lin(s):
     return out
 
 
+# ------------------------------------------------------------------------------------ twins of live systems
+# A case of kind time / ltv / nls may carry  twin = dict(how, at, ops2, sched):  after `at` operations of
+# c['ops'] a second object is made from the live one (copy.deepcopy, or a pickle round trip as torch.save /
+# torch.load do); from then on the original runs ops[at:], the twin runs ops2, interleaved by `sched`
+# (a string of '0' = original / '1' = twin).  Both are systems of the property: the twin must behave as ONE
+# object that lived through ops[:at] ++ ops2, the original as one that lived through ops - own clock, own
+# stored state / reference point - so the oracle (and the Coq model) of a single object judges each of them.
+TWIN_HOWS = ('deepcopy', 'pickle')
+
+
+def fork_system(s, how):
+    import copy
+    import pickle
+    import sys
+    if how == 'deepcopy':
+        return copy.deepcopy(s)
+    cls = type(s)
+    if cls.__module__ == __name__:         # classes made inside make_ltv / make_nls: give pickle a module-level name
+        cls.__qualname__ = '_Twin_' + cls.__name__
+        setattr(sys.modules[__name__], cls.__qualname__, cls)
+    return pickle.loads(pickle.dumps(s))
+
+
+def drive(step, m, ops, twin=None):
+    """m: dict with the live object under 's' (+ whatever the driver carries along, e.g. the current state);
+    step(m, op) -> trace entry.  -> (trace of the original, trace of the twin incl. the shared prefix,
+    (final time of the original, final time of the twin)); the last two are None without a twin"""
+    if not twin:
+        return [step(m, o) for o in ops], None, None
+    at = twin['at']
+    tr = [step(m, o) for o in ops[:at]]
+    m2 = dict(m)
+    m2['s'] = fork_system(m['s'], twin['how'])
+    trs, ms, q = [tr, list(tr)], [m, m2], [list(ops[at:]), [tuple(o) for o in twin['ops2']]]
+    for w in [int(ch) for ch in twin['sched']] + [0] * len(q[0]) + [1] * len(q[1]):
+        if q[w]:
+            trs[w].append(step(ms[w], q[w].pop(0)))
+    return trs[0], trs[1], (int(m['s'].systime), int(m2['s'].systime))
+
+
+def twin_parts(c):
+    """[(who, the operations that object lives through)]"""
+    ops = [tuple(o) for o in c['ops']]
+    tw = c.get('twin')
+    if not tw:
+        return [('', ops)]
+    return [('original', ops), ('twin', ops[:tw['at']] + [tuple(o) for o in tw['ops2']])]
+
+
+def twin_desc(c, who):
+    tw = c.get('twin')
+    if not tw:
+        return ''
+    other = [tuple(o) for o in tw['ops2']] if who == 'original' else [tuple(o) for o in c['ops'][tw['at']:]]
+    return ' [this is the %s of a pair: twin made by %s after the first %d ops, turns %r (0 = original, 1 = twin), meanwhile the other object ran %s]' % (
+        who, tw['how'], tw['at'], tw['sched'], other)
+
+
+def twin_raise(c, e, ignore):
+    key = 'twin:%s:raises' % c['twin']['how']
+    if key in ignore:
+        return None
+    return key, '%s of a live %s system after ops %s raised %r' % (c['twin']['how'], c.get('sys', c['kind']), [tuple(o) for o in c['ops'][:c['twin']['at']]], e)
+
+
+def gen_twin(rng, n, ops2):
+    return dict(how=rng.choice(TWIN_HOWS), at=rng.randint(0, n), ops2=ops2, sched=''.join(rng.choice('01') for _ in range(12)))
+
+
 # ------------------------------------------------------------------------------------ time traces
 # op = ('call',) | ('direct', how) | ('reset', v, as_tensor) | ('settime', v, as_tensor) | ('setref', v or None)
 def coq_op(o):
@@ -261,15 +339,17 @@ def apply_top(torch, kind, s, x, u, o, cache=None):
         return True
 
 
-def run_time_impl(pp, torch, kind, t0, ops):
+def run_time_impl(pp, torch, kind, t0, ops, twin=None):
+    """-> trace [(time, raised)] ; with a twin: (trace of the original, trace of the twin, final times)"""
     s, x, u = mk_system(pp, torch, kind)
     s.reset(t0)
-    tr = []
-    cache = {}
-    for o in ops:
-        raised = apply_top(torch, kind, s, x, u, o, cache)
-        tr.append((int(s.systime), raised))
-    return tr
+    cache = {}                                  # the caller's time tensors: one caller drives both objects of a pair
+
+    def step(m, o):
+        raised = apply_top(torch, kind, m['s'], x, u, o, cache)
+        return (int(m['s'].systime), raised)
+    r = drive(step, dict(s=s), ops, twin)
+    return r if twin else r[0]
 
 
 def doc_time(kind, t0, ops):
@@ -289,17 +369,29 @@ def doc_time(kind, t0, ops):
 
 def check_time_doc(pp, torch, c, ignore=()):
     """returns (key, description) of the first departure from the documented behaviour, or None"""
-    ops = [tuple(o) for o in c['ops']]
-    got = run_time_impl(pp, torch, c['sys'], c['t0'], ops)
-    exp = doc_time(c['sys'], c['t0'], ops)
-    for i, (g, e) in enumerate(zip(got, exp)):
-        if g != e:
-            o = ops[i]
-            what = 'raises' if g[1] else 'leaves systime=%d, documented %d' % (g[0], e[0])
-            key = 'time:%s:%s%s' % (c['sys'], o[0], ':raises' if g[1] else '')
-            if key in ignore:
-                continue
-            return key, '%s from t0=%d after ops %s: op %s %s' % (c['sys'], c['t0'], ops[:i], o, what)
+    parts, tw = twin_parts(c), c.get('twin')
+    try:
+        got = run_time_impl(pp, torch, c['sys'], c['t0'], parts[0][1], tw)
+    except Exception as e:
+        if not tw:
+            raise
+        return twin_raise(c, e, ignore)
+    pre = 'twin:' if tw else ''
+    for (who, ops), tr in zip(parts, got[:2] if tw else [got]):
+        exp = doc_time(c['sys'], c['t0'], ops)
+        for i, (g, e) in enumerate(zip(tr, exp)):
+            if g != e:
+                o = ops[i]
+                what = 'raises' if g[1] else 'leaves systime=%d, documented %d' % (g[0], e[0])
+                key = pre + 'time:%s:%s%s' % (c['sys'], o[0], ':raises' if g[1] else '')
+                if key in ignore:
+                    continue
+                return key, '%s from t0=%d after ops %s: op %s %s%s' % (c['sys'], c['t0'], ops[:i], o, what, twin_desc(c, who))
+    if tw and 'twin:time:final' not in ignore:
+        fin = tuple(([(c['t0'], False)] + doc_time(c['sys'], c['t0'], ops))[-1][0] for _, ops in parts)
+        if tuple(got[2]) != fin:
+            return 'twin:time:final', '%s from t0=%d: original ran %s, its %s twin (made after %d ops, turns %r) ran %s: final times (original, twin) = %s, documented %s' % (
+                c['sys'], c['t0'], parts[0][1], tw['how'], tw['at'], tw['sched'], [tuple(o) for o in tw['ops2']], tuple(got[2]), fin)
     return None
 
 
@@ -479,8 +571,13 @@ def gen_ltv_case(torch, rng):
     c = dict(kind='ltv', T=T, b=b, A=m(T, n, n), B=m(T, n, p), C=m(T, q, n), D=m(T, q, p),
              c1=m(T, n) if rng.random() < 0.5 else None, c2=m(T, q) if rng.random() < 0.5 else None,
              t0=rng.randint(-6, 12), x0=rand_t(torch, rng, pre + (n,), 4, 8).tolist())
+    c['ops'] = gen_ltv_ops(torch, rng, pre, p, rng.randint(3, 14))
+    return c
+
+
+def gen_ltv_ops(torch, rng, pre, p, n):
     ops, ncall = [], 0
-    for _ in range(rng.randint(3, 14)):
+    for _ in range(n):
         k = rng.random()
         if k < 0.45 and ncall < 9:
             ops.append(('call', rand_t(torch, rng, rng.choice([(), pre]) + (p,), 4, 8).tolist()))
@@ -493,25 +590,24 @@ def gen_ltv_case(torch, rng):
             ops.append(('settime', rng.randint(-9, 20)))
         else:
             ops.append(('setref', None if rng.random() < 0.25 else rng.randint(-9, 20)))
-    c['ops'] = ops
-    return c
+    return ops
 
 
 def run_ltv_impl(pp, torch, c):
-    """-> (trace [(time, raised, out per batch item)], per-op snapshots for the oracle)"""
+    """-> trace [(time, raised, out per batch item)] ; with c['twin']: (trace of the original, of the twin, final times)"""
     f64 = torch.float64
     s = make_ltv(pp, torch, c)
     s.reset(c['t0'])
-    x = torch.tensor(c['x0'], dtype=f64)
     nb = 1 if c['b'] is None else c['b']
-    tr = []
-    for o in c['ops']:
+
+    def step(m, o):
+        s, x = m['s'], m['x']
         raised, out = False, [[] for _ in range(nb)]
         try:
             if o[0] == 'call':
                 u = torch.tensor(o[1], dtype=f64)
                 nx, y = s(x, u)
-                x = nx
+                m['x'] = nx
                 out = [a + b for a, b in zip(nx.reshape(nb, -1).tolist(), torch.broadcast_to(y, nx.shape[:-1] + y.shape[-1:]).reshape(nb, -1).tolist())]
             elif o[0] == 'direct':
                 u = torch.tensor(o[1], dtype=f64)
@@ -525,8 +621,10 @@ def run_ltv_impl(pp, torch, c):
                 s.set_refpoint(t=None if o[1] is None else torch.tensor(o[1]))
         except Exception:
             raised = True
-        tr.append((int(s.systime), raised, out))
-    return tr
+        return (int(s.systime), raised, out)
+    tw = c.get('twin')
+    r = drive(step, dict(s=s, x=torch.tensor(c['x0'], dtype=f64)), [tuple(o) for o in c['ops']], tw)
+    return r if tw else r[0]
 
 
 def coq_lop(o, b, nb):
@@ -568,19 +666,32 @@ def doc_ltv(c, b):
 
 
 def check_ltv_doc(pp, torch, c, ignore=()):
-    c = dict(c, ops=[tuple(o) for o in c['ops']])
-    got = run_ltv_impl(pp, torch, c)
+    parts, tw = twin_parts(c), c.get('twin')
+    try:
+        got = run_ltv_impl(pp, torch, c)
+    except Exception as e:
+        if not tw:
+            raise
+        return twin_raise(c, e, ignore)
+    pre = 'twin:' if tw else ''
     nb = 1 if c['b'] is None else c['b']
-    for b in range(nb):
-        exp = doc_ltv(c, b)
-        for i, (g, e) in enumerate(zip(got, exp)):
-            gg = (g[0], g[1], [F(v) for v in g[2][b]])
-            if gg != e:
-                o = c['ops'][i]
-                if 'ltv:%s' % o[0] in ignore:
-                    continue
-                return 'ltv:%s' % o[0], 'time-indexed LTV (T=%d) batch item %d op %d %s: got (time, raised, next++obs)=%s, equations give %s' % (
-                    c['T'], b, i, o, (g[0], g[1], g[2][b]), (e[0], e[1], [float(v) for v in e[2]]))
+    for (who, ops), tr in zip(parts, got[:2] if tw else [got]):
+        d = dict(c, ops=ops)
+        for b in range(nb):
+            exp = doc_ltv(d, b)
+            for i, (g, e) in enumerate(zip(tr, exp)):
+                gg = (g[0], g[1], [F(v) for v in g[2][b]])
+                if gg != e:
+                    o = ops[i]
+                    if pre + 'ltv:%s' % o[0] in ignore:
+                        continue
+                    return pre + 'ltv:%s' % o[0], 'time-indexed LTV (T=%d) batch item %d op %d %s of %s: got (time, raised, next++obs)=%s, equations give %s%s' % (
+                        c['T'], b, i, o, ops, (g[0], g[1], g[2][b]), (e[0], e[1], [float(v) for v in e[2]]), twin_desc(c, who))
+    if tw and 'twin:time:final' not in ignore:
+        fin = tuple(([(c['t0'],)] + doc_ltv(dict(c, ops=ops), 0))[-1][0] for _, ops in parts)
+        if tuple(got[2]) != fin:
+            return 'twin:time:final', 'time-indexed LTV from t0=%d: original ran %s, its %s twin (made after %d ops, turns %r) ran %s: final times (original, twin) = %s, documented %s' % (
+                c['t0'], parts[0][1], tw['how'], tw['at'], tw['sched'], [tuple(o) for o in tw['ops2']], tuple(got[2]), fin)
     return None
 
 
@@ -627,14 +738,87 @@ def gen_nls_ops(rng, c, n):
     return ops
 
 
-def run_nls_impl(pp, torch, c, ops):
-    """-> [(time, raised, flat outputs)]"""
+# ---- special reference points: points where a value-based shortcut of the linearisation could fire
+def gen_special_nls(rng, trig=False):
+    """A system from the tree language together with a reference point (x*, u*, t*) that is special BY VALUE
+    although the functions are not: components of f / g are   base + sum_k v_k * h_k   (trig: base * cos(v) +
+    sin(v) * h) with v_k a factor that vanishes at the reference point (x_j - x*_j, u_k - u*_k, t - t*) and h_k
+    random trees, base in {x_i (fixed point: g(x*,u*,t*) == x*, f(x*,u*,t*) == x*), u_i (the input is echoed),
+    nothing (the value is exactly 0), a constant}; independently the point itself is often the zero state /
+    zero input / time 0.  The Jacobians there are NOT those of the base (identity / zero): they contain h_k(x*,u*,t*).
+    -> (case without ops, x*, u*, t*)"""
+    nx, nu = rng.randint(1, 3), rng.randint(1, 3)
+    xs = [0.0] * nx if rng.random() < 0.25 else [0.0 if rng.random() < 0.2 else dy(rng) for _ in range(nx)]
+    us = [0.0] * nu if rng.random() < 0.3 else [0.0 if rng.random() < 0.2 else dy(rng) for _ in range(nu)]
+    ts = 0 if rng.random() < 0.35 else rng.randint(-3, 9)
+
+    def vanish():
+        k = rng.randrange(3)
+        var, a = (('x', rng.randrange(nx)), None) if k == 0 else ((('u', rng.randrange(nu)), None) if k == 1 else (('t',), float(ts)))
+        if a is None:
+            a = (xs if var[0] == 'x' else us)[var[1]]
+        return var if a == 0 else ('+', var, ('c', -a))
+
+    def comp(base):
+        e = base
+        for _ in range(rng.randint(1, 2)):
+            v, h = vanish(), gen_tree(rng, nx, nu, rng.randint(1, 2), rng.randint(1, 2), trig)
+            if trig and rng.random() < 0.7:
+                if e is not None and rng.random() < 0.5:
+                    e = ('*', e, ('cos', v))
+                v = ('sin', v)
+            term = ('*', v, h)
+            e = term if e is None else ('+', e, term)
+        return e
+
+    def family(flavour, n):
+        if flavour == 'fix':
+            return [comp(('x', i)) for i in range(nx)]
+        if flavour == 'echo':
+            return [comp(('u', i)) for i in range(nu)]
+        if flavour == 'zero':
+            return [comp(None) for _ in range(n)]
+        if flavour == 'const':
+            return [comp(('c', dy(rng))) for _ in range(n)]
+        return [gen_tree(rng, nx, nu, rng.randint(1, 3), rng.randint(1, 4), trig) for _ in range(n)]
+    ff = rng.choice(['fix', 'fix', 'zero', 'const', 'generic', 'generic'] + (['echo'] if nu == nx else []))
+    gf = rng.choice(['fix', 'fix', 'fix', 'echo', 'zero', 'const', 'generic'])
+    c = dict(kind='nls', nx=nx, nu=nu, fs=family(ff, nx), gs=family(gf, rng.randint(1, 2)), t0=rng.randint(-3, 8), special='f:%s,g:%s' % (ff, gf))
+    return c, xs, us, ts
+
+
+def special_ops(rng, c, xs, us, ts):
+    """histories that linearise at the special point - given explicitly, through the clock (reset / systime
+    then t=None) or through a call made there (state, input, t all None) - never as the first thing the object
+    does, and read again after the object has moved on"""
+    X, U = lambda: dyvec(rng, c['nx']), lambda: dyvec(rng, c['nu'])
+    ops = []
+    if rng.random() < 0.6:
+        ops += [('setref', X(), U(), ('i', rng.randint(-3, 9))), ('read',)]
+    else:
+        ops += [('call', X(), U())]
+    k = rng.randrange(3)
+    if k == 0:
+        ops += [('setref', list(xs), list(us), rng.choice([('i', ts), ('f', float(ts))]))]
+    elif k == 1:
+        ops += [(rng.choice(['reset', 'settime']), ts), ('setref', list(xs), list(us), None)]
+    else:
+        ops += [(rng.choice(['reset', 'settime']), ts - 1), ('call', list(xs), list(us)), ('setref', None, None, None)]
+    ops += [('read',)]
+    if rng.random() < 0.5:
+        ops += [('call', X(), U()), ('read',)]
+    return ops
+
+
+def run_nls_impl(pp, torch, c, ops, twin=None):
+    """-> [(time, raised, flat outputs)] ; with a twin: (trace of the original, of the twin, final times)"""
     f64 = torch.float64
     s = make_nls(pp, torch, c['fs'], c['gs'])
     s.reset(c['t0'])
     V = lambda v: torch.tensor(v, dtype=f64)
-    tr = []
-    for o in ops:
+
+    def step(m, o):
+        s = m['s']
         raised, out = False, []
         try:
             if o[0] == 'call':
@@ -655,8 +839,9 @@ def run_nls_impl(pp, torch, c, ops):
                 out = read_lin(s)
         except Exception:
             raised = True
-        tr.append((int(s.systime), raised, out))
-    return tr
+        return (int(s.systime), raised, out)
+    r = drive(step, dict(s=s), [tuple(o) for o in ops], twin)
+    return r if twin else r[0]
 
 
 def coq_nop(o, lit):
@@ -698,64 +883,88 @@ def check_nls_doc(pp, torch, c, ops, exact=True, ignore=()):
     A x* + B u* + c1 = f(x*,u*,t*), C x* + D u* + c2 = g(x*,u*,t*); times follow the counter; documented
     calls do not raise"""
     import sympy as sp
-    ops = [tuple(o) for o in ops]
-    got = run_nls_impl(pp, torch, c, ops)
-    t, last, ref = c['t0'], None, None
-    for i, (o, g) in enumerate(zip(ops, got)):
-        expect_raise = False
-        if o[0] == 'call':
-            last, t = (o[1], o[2]), t + 1
-        elif o[0] in ('reset', 'settime'):
-            t = o[1]
-        elif o[0] == 'setref':
-            rx = o[1] if o[1] is not None else (last[0] if last else None)
-            ru = o[2] if o[2] is not None else (last[1] if last else None)
-            if rx is None or ru is None:
-                expect_raise = True          # no state / input to take: an error is the documented outcome
-            else:
-                ref = (rx, ru, t if o[3] is None else o[3][1], o[3] is None, t)
-        elif o[0] == 'read' and ref is None:
-            expect_raise = True
-        if g[0] != t:
-            return 'time:NLS:%s' % o[0], 'NLS history %s: systime=%d, documented %d' % (ops[:i + 1], g[0], t)
-        if g[1] != expect_raise:
-            return 'nls:%s:raises' % o[0], 'NLS history %s: last op %s' % (ops[:i + 1], 'raised' if g[1] else 'did not raise')
-        if o[0] == 'read' and not g[1]:
-            rx, ru, rt, dflt, tset = ref
-            A, B, C, D, f, gg = sym_lin(c, rx, ru, rt)
-            nx, nu, nf, ng = c['nx'], c['nu'], len(c['fs']), len(c['gs'])
-            out = g[2]
-            k = 0
-            imp = {}
-            for name, r_, c_ in (('A', nf, nx), ('B', nf, nu), ('C', ng, nx), ('D', ng, nu)):
-                imp[name] = [[out[k + a * c_ + b] for b in range(c_)] for a in range(r_)]
-                k += r_ * c_
-            imp['c1'], imp['c2'] = out[k:k + nf], out[k + nf:k + nf + ng]
-            tol = lambda scale: 0 if exact else 4 * K_EPS * EPS * max(1.0, scale)
-            xs = sum(abs(v) for v in rx) + sum(abs(v) for v in ru)
-            for name, ref_m, es in (('A', A, c['fs']), ('B', B, c['fs']), ('C', C, c['gs']), ('D', D, c['gs'])):
-                for a, row in enumerate(ref_m):
-                    sc = t_mag(es[a], rx, ru, rt)[1]
-                    for b, v in enumerate(row):
-                        d = abs(sp.Rational(F(imp[name][a][b]).numerator, F(imp[name][a][b]).denominator) - v)
-                        if (d != 0) if exact else (float(sp.N(d, 30)) > tol(sc)):
-                            key = 'nls:jacobian:%s' % name
+    c = dict(c, ops=ops)
+    parts, tw = twin_parts(c), c.get('twin')
+    try:
+        got_all = run_nls_impl(pp, torch, c, parts[0][1], tw)
+    except Exception as e:
+        if not tw:
+            raise
+        return twin_raise(c, e, ignore)
+    pre = 'twin:' if tw else ''
+
+    def compare(ops, got, who):
+        t, last, ref = c['t0'], None, None
+        for i, (o, g) in enumerate(zip(ops, got)):
+            expect_raise = False
+            if o[0] == 'call':
+                last, t = (o[1], o[2]), t + 1
+            elif o[0] in ('reset', 'settime'):
+                t = o[1]
+            elif o[0] == 'setref':
+                rx = o[1] if o[1] is not None else (last[0] if last else None)
+                ru = o[2] if o[2] is not None else (last[1] if last else None)
+                if rx is None or ru is None:
+                    expect_raise = True          # no state / input to take: an error is the documented outcome
+                else:
+                    ref = (rx, ru, t if o[3] is None else o[3][1], o[3] is None, t)
+            elif o[0] == 'read' and ref is None:
+                expect_raise = True
+            if g[0] != t and (not tw or pre + 'time:NLS:%s' % o[0] not in ignore):
+                return pre + 'time:NLS:%s' % o[0], 'NLS history %s: systime=%d, documented %d%s' % (ops[:i + 1], g[0], t, twin_desc(c, who))
+            if g[1] != expect_raise and (not tw or pre + 'nls:%s:raises' % o[0] not in ignore):
+                return pre + 'nls:%s:raises' % o[0], 'NLS history %s: last op %s%s' % (ops[:i + 1], 'raised' if g[1] else 'did not raise', twin_desc(c, who))
+            if o[0] == 'read' and not g[1]:
+                rx, ru, rt, dflt, tset = ref
+                A, B, C, D, f, gg = sym_lin(c, rx, ru, rt)
+                nx, nu, nf, ng = c['nx'], c['nu'], len(c['fs']), len(c['gs'])
+                out = g[2]
+                k = 0
+                imp = {}
+                for name, r_, c_ in (('A', nf, nx), ('B', nf, nu), ('C', ng, nx), ('D', ng, nu)):
+                    imp[name] = [[out[k + a * c_ + b] for b in range(c_)] for a in range(r_)]
+                    k += r_ * c_
+                imp['c1'], imp['c2'] = out[k:k + nf], out[k + nf:k + nf + ng]
+                tol = lambda scale: 0 if exact else 4 * K_EPS * EPS * max(1.0, scale)
+                xs = sum(abs(v) for v in rx) + sum(abs(v) for v in ru)
+                for name, ref_m, es in (('A', A, c['fs']), ('B', B, c['fs']), ('C', C, c['gs']), ('D', D, c['gs'])):
+                    for a, row in enumerate(ref_m):
+                        sc = t_mag(es[a], rx, ru, rt)[1]
+                        for b, v in enumerate(row):
+                            d = abs(sp.Rational(F(imp[name][a][b]).numerator, F(imp[name][a][b]).denominator) - v)
+                            if (d != 0) if exact else (float(sp.N(d, 30)) > tol(sc)):
+                                key = pre + 'nls:jacobian:%s' % name
+                                if key in ignore:
+                                    continue
+                                return key, ('NLS f=%s g=%s after history %s: %s[%d][%d]=%r but the Jacobian at the reference point (x*=%s,u*=%s,t*=%s) is %s'
+                                             % ([t_src(e) for e in c['fs']], [t_src(e) for e in c['gs']], ops[:i + 1], name, a, b, imp[name][a][b], rx, ru, rt, sp.N(v, 20))
+                                             + ('; set_refpoint ran with t=None at time %d, the time is now %d' % (tset, t) if dflt else '') + twin_desc(c, who))
+                for name, M, N, cv, val, es in (('c1', imp['A'], imp['B'], imp['c1'], f, c['fs']), ('c2', imp['C'], imp['D'], imp['c2'], gg, c['gs'])):
+                    aff = doc_affine(M, N, cv, rx, ru)
+                    for a in range(len(val)):
+                        m = t_mag(es[a], rx, ru, rt)
+                        d = abs(sp.Rational(aff[a].numerator, aff[a].denominator) - val[a])
+                        if (d != 0) if exact else (float(sp.N(d, 30)) > tol(m[0] + m[1] * xs) * 4):
+                            key = pre + 'nls:affine:%s' % name
                             if key in ignore:
                                 continue
-                            return key, ('NLS f=%s g=%s after history %s: %s[%d][%d]=%r but the Jacobian at the reference point (x*=%s,u*=%s,t*=%s) is %s'
-                                         % ([t_src(e) for e in c['fs']], [t_src(e) for e in c['gs']], ops[:i + 1], name, a, b, imp[name][a][b], rx, ru, rt, sp.N(v, 20))
-                                         + ('; set_refpoint ran with t=None at time %d, the time is now %d' % (tset, t) if dflt else ''))
-            for name, M, N, cv, val, es in (('c1', imp['A'], imp['B'], imp['c1'], f, c['fs']), ('c2', imp['C'], imp['D'], imp['c2'], gg, c['gs'])):
-                aff = doc_affine(M, N, cv, rx, ru)
-                for a in range(len(val)):
-                    m = t_mag(es[a], rx, ru, rt)
-                    d = abs(sp.Rational(aff[a].numerator, aff[a].denominator) - val[a])
-                    if (d != 0) if exact else (float(sp.N(d, 30)) > tol(m[0] + m[1] * xs) * 4):
-                        key = 'nls:affine:%s' % name
-                        if key in ignore:
-                            continue
-                        return key, ('NLS f=%s g=%s after history %s: affine model at the reference point gives %s for component %d, the function value there is %s (%s)'
-                                     % ([t_src(e) for e in c['fs']], [t_src(e) for e in c['gs']], ops[:i + 1], float(aff[a]), a, sp.N(val[a], 20), name))
+                            return key, ('NLS f=%s g=%s after history %s: affine model at the reference point gives %s for component %d, the function value there is %s (%s)'
+                                         % ([t_src(e) for e in c['fs']], [t_src(e) for e in c['gs']], ops[:i + 1], float(aff[a]), a, sp.N(val[a], 20), name) + twin_desc(c, who))
+        return None
+    for (who, ops_w), tr in zip(parts, got_all[:2] if tw else [got_all]):
+        r = compare(ops_w, tr, who)
+        if r is not None:
+            return r
+    if tw and 'twin:time:final' not in ignore:
+        fin = []
+        for _, ops_w in parts:
+            t = c['t0']
+            for o in ops_w:
+                t = t + 1 if o[0] == 'call' else (o[1] if o[0] in ('reset', 'settime') else t)
+            fin.append(t)
+        if tuple(got_all[2]) != tuple(fin):
+            return 'twin:time:final', 'NLS f=%s g=%s from t0=%d: original ran %s, its %s twin (made after %d ops, turns %r) ran %s: final times (original, twin) = %s, documented %s' % (
+                [t_src(e) for e in c['fs']], [t_src(e) for e in c['gs']], c['t0'], parts[0][1], tw['how'], tw['at'], tw['sched'], [tuple(o) for o in tw['ops2']], tuple(got_all[2]), tuple(fin))
     return None
 
 
@@ -812,7 +1021,7 @@ def departures(pp, torch, c):
 
 def shrink(pp, torch, c, key):
     """shortest prefix of the history that still shows the departure `key`"""
-    if c.get('kind') not in ('time', 'ltv', 'nls'):
+    if c.get('kind') not in ('time', 'ltv', 'nls') or c.get('twin'):
         return c
     for n in range(1, len(c['ops'])):
         d = dict(c, ops=list(c['ops'][:n]))
@@ -860,6 +1069,7 @@ def run(ctx):
     import torch
     ctx.rule = RULE
     rng = ctx.rng
+    rng2 = type(rng)('C15 twins and special reference points, seed %r' % (ctx.seed,))   # own stream: the older families keep their inputs
     files, table = [], {}
 
     def report_all(case, rs=None):
@@ -880,21 +1090,36 @@ def run(ctx):
                 tcases.append(dict(kind='time', sys=kind, t0=2, ops=[a, b]))
         for _ in range(ctx.scale(40, 600)):
             tcases.append(dict(kind='time', sys=kind, t0=rng.randint(-8, 40), ops=[gen_top(rng, kind) for _ in range(rng.randint(1, 40))]))
-    lines = []
-    for i, c in enumerate(tcases):
-        tr = run_time_impl(pp, torch, c['sys'], c['t0'], c['ops'])
-        c['trace'] = tr
-        for k, (o, (t, r)) in enumerate(zip(c['ops'], tr)):
-            ctx.case(('time', c['sys'], c['t0'], repr(c['ops'][:k + 1])), nontrivial=True,
-                     branch='time:%s:%s%s' % (c['sys'], o[0], ':raised' if r else ''))
-        ctx.traces += 1
-        lines.append('(%d%%nat, (K%s, %s%%Z, %s, %s))' % (i, c['sys'], zlit(c['t0']), coq_list(coq_op(o) for o in c['ops']),
-                                                       coq_list('(%s%%Z, %s)' % (zlit(t), zb(r)) for t, r in tr)))
-        report_all(c)
+    for kind in ('LTI', 'LTV', 'NLS'):         # twins of live objects: directed (a twin of a fresh / of a running object, both go on), then random
+        for how in TWIN_HOWS:
+            tcases.append(dict(kind='time', sys=kind, t0=2, ops=[('call',), ('call',), ('call',), ('direct', 'read')],
+                               twin=dict(how=how, at=2, ops2=[('call',), ('direct', 'read'), ('call',), ('call',), ('direct', 'read')], sched='10101010')))
+            tcases.append(dict(kind='time', sys=kind, t0=5, ops=[('call',), ('settime', 3, True), ('call',)],
+                               twin=dict(how=how, at=0, ops2=[('reset', 7, False), ('call',), ('settime', 3, True), ('call',)], sched='1101001')))
+        for _ in range(ctx.scale(8, 120)):
+            ops = [gen_top(rng2, kind) for _ in range(rng2.randint(1, 8))]
+            tcases.append(dict(kind='time', sys=kind, t0=rng2.randint(-8, 40), ops=ops,
+                               twin=gen_twin(rng2, len(ops), [gen_top(rng2, kind) for _ in range(rng2.randint(1, 8))])))
+    lines, tmeta = [], []
+    for c in tcases:
+        tw = c.get('twin')
+        if report_all(c) and tw:
+            continue                           # a twin that departs from the documented behaviour: reported with its input
+        tr = run_time_impl(pp, torch, c['sys'], c['t0'], c['ops'], tw)
+        c['trace'] = tr[0] if tw else tr
+        for (who, ops), tr in list(zip(twin_parts(c), tr[:2] if tw else [tr])):
+            for k, (o, (t, r)) in enumerate(zip(ops, tr)):
+                ctx.case(('time', c['sys'], c['t0'], repr(ops[:k + 1])) + ((who, repr(tw)) if tw else ()), nontrivial=True,
+                         branch='time:%s:%s%s%s' % (c['sys'], o[0], ':raised' if r else '', (':%s:%s' % (who, tw['how'])) if tw else ''))
+            ctx.traces += 1
+            lines.append('(%d%%nat, (K%s, %s%%Z, %s, %s))' % (len(tmeta), c['sys'], zlit(c['t0']), coq_list(coq_op(o) for o in ops),
+                                                           coq_list('(%s%%Z, %s)' % (zlit(t), zb(r)) for t, r in tr)))
+            tmeta.append(c)
     for k, sh in enumerate(shard(lines, 150)):
         files.append(('time_%03d' % k, HDR + 'Eval vm_compute in time_bad %s.\n' % coq_list(sh)))
-    table['time'] = tcases
-    ctx.samples.append(dict(kind='time', sys=tcases[-1]['sys'], t0=tcases[-1]['t0'], ops=tcases[-1]['ops'][:6], trace=tcases[-1]['trace'][:6]))
+    table['time'] = tmeta
+    last = [c for c in tcases if not c.get('twin')][-1]
+    ctx.samples.append(dict(kind='time', sys=last['sys'], t0=last['t0'], ops=last['ops'][:6], trace=last['trace'][:6]))
 
     # ---------------------------------------------------------------- 2. bmv / bvv / bvmv
     lmeta, lines = [], []
@@ -939,22 +1164,35 @@ def run(ctx):
 
     # ---------------------------------------------------------------- 4. LTV traces
     vmeta, lines = [], []
-    for _ in range(ctx.scale(60, 800)):
-        c = gen_ltv_case(torch, rng)
-        tr = run_ltv_impl(pp, torch, c)
+    vcases = [gen_ltv_case(torch, rng) for _ in range(ctx.scale(60, 800))]
+    for _ in range(ctx.scale(12, 150)):        # twins of live time-indexed systems: each follows its own clock and state
+        c = gen_ltv_case(torch, rng2)
+        while c['T'] < 2:
+            c = gen_ltv_case(torch, rng2)
+        c['ops'] = c['ops'][:8]
+        pre, p = (() if c['b'] is None else (c['b'],)), len(c['D'][0][0] if c['b'] is None else c['D'][0][0][0])
+        c['twin'] = gen_twin(rng2, len(c['ops']), gen_ltv_ops(torch, rng2, pre, p, rng2.randint(2, 8)))
+        vcases.append(c)
+    for c in vcases:
+        tw = c.get('twin')
+        if tw and report_all(c):
+            continue
+        tr_all = run_ltv_impl(pp, torch, c)
         nb = 1 if c['b'] is None else c['b']
         sel = (lambda v, b: v) if c['b'] is None else (lambda v, b: None if v is None else v[b])
-        for b in range(nb):
-            i = len(vmeta)
-            vmeta.append(c)
-            q3 = lambda v: coq_list(qmat(m) for m in v)
-            lines.append('(%d%%nat, ((%s%%Z, %s, %s, %s, %s, %s, %s), %s%%Z, %s, %s, %s))' % (
-                i, zlit(c['T']), q3(sel(c['A'], b)), q3(sel(c['B'], b)), q3(sel(c['C'], b)), q3(sel(c['D'], b)),
-                qopt(sel(c['c1'], b), qmat), qopt(sel(c['c2'], b), qmat), zlit(c['t0']), qlist(sel(c['x0'], b)),
-                coq_list(coq_lop(o, b, nb) for o in c['ops']), coq_trace([(t, r, o[b]) for t, r, o in tr])))
-        for o, (t, r, out) in zip(c['ops'], tr):
-            ctx.case(('ltv', len(vmeta), t, repr(out)), nontrivial=True, branch='ltv:%s%s%s' % (o[0], ':raised' if r else '', ':batched' if c['b'] else ''))
-        ctx.traces += 1
+        for (who, ops), tr in zip(twin_parts(c), tr_all[:2] if tw else [tr_all]):
+            for b in range(nb):
+                i = len(vmeta)
+                vmeta.append(c)
+                q3 = lambda v: coq_list(qmat(m) for m in v)
+                lines.append('(%d%%nat, ((%s%%Z, %s, %s, %s, %s, %s, %s), %s%%Z, %s, %s, %s))' % (
+                    i, zlit(c['T']), q3(sel(c['A'], b)), q3(sel(c['B'], b)), q3(sel(c['C'], b)), q3(sel(c['D'], b)),
+                    qopt(sel(c['c1'], b), qmat), qopt(sel(c['c2'], b), qmat), zlit(c['t0']), qlist(sel(c['x0'], b)),
+                    coq_list(coq_lop(o, b, nb) for o in ops), coq_trace([(t, r, o[b]) for t, r, o in tr])))
+            for o, (t, r, out) in zip(ops, tr):
+                ctx.case(('ltv', len(vmeta), t, repr(out)), nontrivial=True,
+                         branch='ltv:%s%s%s%s' % (o[0], ':raised' if r else '', ':batched' if c['b'] else '', (':%s:%s' % (who, tw['how'])) if tw else ''))
+            ctx.traces += 1
     for k, sh in enumerate(shard(lines, 40)):
         files.append(('ltv_%03d' % k, HDR + 'Eval vm_compute in ltv_bad %s.\n' % coq_list(sh)))
     table['ltv'] = vmeta
@@ -972,16 +1210,30 @@ def run(ctx):
         c = gen_nls_case(rng)
         c['ops'] = gen_nls_ops(rng, c, rng.randint(4, 14))
         ncases.append(c)
+    for _ in range(ctx.scale(40, 400)):        # reference points that are special by value (fixed points of f / g, zeros, zero state / input / time)
+        c, xs, us, ts = gen_special_nls(rng2)
+        c['ops'] = special_ops(rng2, c, xs, us, ts)
+        ncases.append(c)
+    for _ in range(ctx.scale(12, 150)):        # twins of live systems: own clock, own last state / input, own reference point
+        c = gen_nls_case(rng2)
+        c['ops'] = gen_nls_ops(rng2, c, rng2.randint(2, 8))
+        c['twin'] = gen_twin(rng2, len(c['ops']), gen_nls_ops(rng2, c, rng2.randint(2, 8)))
+        ncases.append(c)
     for i, c in enumerate(ncases):
-        tr = run_nls_impl(pp, torch, c, c['ops'])
-        nmeta.append(c)
-        for o, (t, r, out) in zip(c['ops'], tr):
-            ctx.case(('nls', i, t, repr(out)), nontrivial=bool(out) or o[0] != 'read',
-                     branch='nls:%s%s' % (o[0] + ((':t=' + ('None' if o[3] is None else o[3][0]) + (':x=last' if o[1] is None else '')) if o[0] == 'setref' else ''), ':raised' if r else ''))
-        ctx.traces += 1
-        lines.append('(%d%%nat, (%s, %s, %s%%Z, %s, %s))' % (i, coq_list(t_coq(e, qlit) for e in c['fs']), coq_list(t_coq(e, qlit) for e in c['gs']),
-                                                            zlit(c['t0']), coq_list(coq_nop(o, qlit) for o in c['ops']), coq_trace(tr)))
-        report_all(c)
+        tw = c.get('twin')
+        if report_all(c) and tw:
+            continue
+        tr_all = run_nls_impl(pp, torch, c, c['ops'], tw)
+        tr = tr_all[0] if tw else tr_all
+        for (who, ops), tr_w in zip(twin_parts(c), tr_all[:2] if tw else [tr_all]):
+            for o, (t, r, out) in zip(ops, tr_w):
+                ctx.case(('nls', i, t, repr(out)) + ((who,) if tw else ()), nontrivial=bool(out) or o[0] != 'read',
+                         branch='nls:%s%s%s%s' % (o[0] + ((':t=' + ('None' if o[3] is None else o[3][0]) + (':x=last' if o[1] is None else '')) if o[0] == 'setref' else ''), ':raised' if r else '',
+                                                  (':%s:%s' % (who, tw['how'])) if tw else '', (':special(%s)' % c['special'].split(',')[1]) if o[0] == 'read' and 'special' in c else ''))
+            ctx.traces += 1
+            lines.append('(%d%%nat, (%s, %s, %s%%Z, %s, %s))' % (len(nmeta), coq_list(t_coq(e, qlit) for e in c['fs']), coq_list(t_coq(e, qlit) for e in c['gs']),
+                                                                zlit(c['t0']), coq_list(coq_nop(o, qlit) for o in ops), coq_trace(tr_w)))
+            nmeta.append(c)
         if i in (1, 5):
             ctx.samples.append(dict(kind='nls', fs=[t_src(e) for e in c['fs']], gs=[t_src(e) for e in c['gs']], ops=c['ops'][:4], trace=tr[:4]))
     for k, sh in enumerate(shard(lines, 25)):
@@ -1002,11 +1254,18 @@ def run(ctx):
 
     # ---------------------------------------------------------------- 6. NLS linearisation, trig trees (enclosure)
     emeta, ecases = [], []
-    for j in range(ctx.scale(60, 900)):
-        c = gen_nls_case(rng, trig=(j % 6 != 0))
-        x, u = dyvec(rng, c['nx']), dyvec(rng, c['nu'])
-        ot = rng.choice([('i', rng.randint(-3, 9)), ('f', dy(rng))])
+    nspecial = ctx.scale(12, 150)
+    for j in range(ctx.scale(60, 900) + nspecial):
+        if j < nspecial:                       # trigonometric systems at reference points that are special by value
+            c, x, u, ts = gen_special_nls(rng2, trig=True)
+            ot = rng2.choice([('i', ts), ('f', float(ts))])
+        else:
+            c = gen_nls_case(rng, trig=(j % 6 != 0))
+            x, u = dyvec(rng, c['nx']), dyvec(rng, c['nu'])
+            ot = rng.choice([('i', rng.randint(-3, 9)), ('f', dy(rng))])
         c['ops'] = [('setref', x, u, ot), ('read',)]
+        if j < nspecial and report_all(c):
+            continue
         tr = run_nls_impl(pp, torch, c, c['ops'])
         if tr[1][1] or any(not math.isfinite(v) for v in tr[1][2]):
             ctx.mismatch('nls-enc', c, 'read raised / non-finite')
@@ -1016,7 +1275,7 @@ def run(ctx):
         i = len(emeta)
         emeta.append(c)
         ctx.case(('nls-enc', repr(c['fs']), repr(c['gs']), tuple(x), tuple(u), ot), nontrivial=any(v != 0 for v in out),
-                 branch='nls-lin:%s' % ('trig' if not all(t_poly(e) for e in c['fs'] + c['gs']) else 'poly'),
+                 branch='nls-lin:%s%s' % ('trig' if not all(t_poly(e) for e in c['fs'] + c['gs']) else 'poly', (':special(%s)' % c['special'].split(',')[1]) if 'special' in c else ''),
                  sample=dict(kind='nls-lin', fs=[t_src(e) for e in c['fs']], gs=[t_src(e) for e in c['gs']], x=x, u=u, t=ot[1], impl=out) if i == 2 else None)
         ecases.append(dict(idx=i, expr='nls_lin_l %s %s %s %s %s' % (coq_list(t_coq(e, rlit) for e in c['fs']), coq_list(t_coq(e, rlit) for e in c['gs']),
                                                                      rlist(x), rlist(u), rlit(ot[1])),
